@@ -450,6 +450,11 @@ func (c *c20case) build() []*c20rec {
 			}
 		}
 		r.cmd += "; echo aux" + fmt.Sprint(i) + " > " + strings.TrimSuffix(r.outs[0], ".txt") + ".aux"
+		if i%3 == 2 {
+			// the scipipe idiom for naming ports / parameters the command itself does not use:
+			// a trailing shell comment (examples/resequencing: "bwa aln ... > {o:sai} # {i:idxdone}")
+			r.cmd += " # rec" + fmt.Sprint(i)
+		}
 		if i%2 == 1 {
 			// a command whose non-final part fails harmlessly (grep without hits, ...): scipipe ran it
 			// with plain "bash -c", where only the last status counts; replaying it must do the same
@@ -745,8 +750,15 @@ func c20Judge(format, text string, recs []*c20rec) []c20finding {
 			if ln == "" {
 				continue
 			}
+			// the line that IS a record's command, possibly wrapped by the script in a subshell or a
+			// group ("( cmd )", "{ cmd; }"); the template's echo lines merely quote the command
+			bare := c20StripWrap(ln)
 			for i, r := range recs {
-				if judged[i] && (ln == r.cmd || ln == strings.Replace(r.cmd, "../", "", -1)) {
+				if !judged[i] {
+					continue
+				}
+				c2 := strings.Replace(r.cmd, "../", "", -1)
+				if ln == r.cmd || ln == c2 || bare == r.cmd || bare == c2 {
 					listed = append(listed, i)
 					break
 				}
@@ -754,6 +766,22 @@ func c20Judge(format, text string, recs []*c20rec) []c20finding {
 		}
 	}
 	return append(out, c20JudgeListing(recs, judged, listed)...)
+}
+
+// c20StripWrap removes subshell / group wrappers around a script line.
+func c20StripWrap(ln string) string {
+	for {
+		t := strings.TrimSpace(ln)
+		switch {
+		case strings.HasPrefix(t, "(") || strings.HasPrefix(t, "{"):
+			t = t[1:]
+		case strings.HasSuffix(t, ")") || strings.HasSuffix(t, "}") || strings.HasSuffix(t, ";"):
+			t = t[:len(t)-1]
+		default:
+			return t
+		}
+		ln = t
+	}
 }
 
 // ---------------------------------------------------------------- running the real code
